@@ -9,7 +9,12 @@ pub struct Rng(pub u64);
 
 impl Rng {
     pub fn new(seed: u64) -> Rng {
-        Rng(seed.wrapping_mul(0x9E3779B97F4A7C15).wrapping_add(0x1234_5678_9abc_def1))
+        // scramble the seed: consecutive seeds must give unrelated streams (the state advances by a constant, so
+        // an affine seeding would make the stream of seed s+1 the stream of seed s shifted by one draw)
+        let mut z = seed ^ 0x6a09e667f3bcc909;
+        z = (z ^ (z >> 30)).wrapping_mul(0xBF58476D1CE4E5B9);
+        z = (z ^ (z >> 27)).wrapping_mul(0x94D049BB133111EB);
+        Rng(z ^ (z >> 31))
     }
 
     pub fn next(&mut self) -> u64 {
